@@ -671,6 +671,8 @@ func (s *consumerGroupSession) consume(topic string, partition int32) {
 		return
 	}
 
+	verifGate("sess.claim", topic, partition)
+
 	// handle errors
 	go func() {
 		for err := range claim.Errors() {
